@@ -52,6 +52,10 @@ func statusValue(class string) (string, bool) {
 		return "-1", true
 	case "huge":
 		return "99999999999999999999", true
+	case "wrap": // a multiple of 2^32: zero to whoever truncates it to 32 bits
+		return "4294967296", true
+	case "wrap5": // 2^32 + 5
+		return "4294967301", true
 	}
 	return "", false
 }
